@@ -13,7 +13,7 @@ src = f"/tmp/seeded_out/{pid}/{x}"
 dst = f"/verif/seeded/{pid}-{x}"
 wt = f"/tmp/sw/{pid}{x}"
 run = lambda cmd, **kw: subprocess.run(cmd, shell=True, capture_output=True, text=True, **kw)
-meta = {"property": pid, "variant": x}
+meta = {"property": pid[:3], "variant": x, "round": 2 if pid.endswith("v2") else 1}
 notes = {}
 try:
     notes = json.load(open(f"{src}/notes.json"))
@@ -55,13 +55,13 @@ else:
 shutil.copy(f"{src}/demo.py", f"{dst}/demo.py")
 meta["checks"] = {}
 if meta.get("confirmed"):
-    if run("git -C /repo diff --quiet").returncode != 0:
-        print("repo dirty; refusing"); sys.exit(2)
-    ap = run(f"git -C /repo apply {dst}/patch.diff")
+    run(f"git -C /repo worktree remove --force {wt}")
+    run(f"git -C /repo worktree add -q --detach {wt} HEAD")
     try:
+        ap = run(f"git -C {wt} apply {dst}/patch.diff")
         for c in checks:
             t = time.time()
-            o = run(f"cd /verif && VERIF_NO_EVIDENCE=1 timeout 1500 ./check {c} quick")
+            o = run(f"cd /verif && VERIF_REPO={wt} VERIF_NO_EVIDENCE=1 timeout 1500 ./check {c} quick")
             viol = [l for l in o.stdout.splitlines() if l.startswith("VIOLATION")]
             first = ""
             lines = o.stdout.splitlines()
@@ -71,8 +71,8 @@ if meta.get("confirmed"):
                     break
             meta["checks"][c] = {"exit": o.returncode, "detected": o.returncode == 1 and bool(viol), "violation_lines": len(viol), "first": first, "wall_s": round(time.time() - t, 1)}
     finally:
-        run("git -C /repo checkout -- .")
-meta["what_was_run"] = "tools/eval_seed.py: scratch worktree + tools/baseline.py (repo suite), demo.py with/without patch, then ./check <id> quick on /repo with the patch applied and reverted"
+        run(f"git -C /repo worktree remove --force {wt}")
+meta["what_was_run"] = "tools/eval_seed.py: scratch worktree + tools/baseline.py (repo suite), demo.py with/without patch, then ./check <id> quick against a scratch worktree of /repo HEAD with the patch applied (VERIF_REPO), /repo itself untouched"
 json.dump(meta, open(f"{dst}/meta.json", "w"), indent=1)
 print(json.dumps({k: meta[k] for k in ("property", "variant", "confirmed", "repo_tests_ok", "demo_with_patch_exit", "demo_without_patch_exit", "applies_to_head") if k in meta}))
 for c, v in meta["checks"].items():
